@@ -775,6 +775,13 @@ func (r *Reader) parseBodyElements(data []byte) error {
 			}
 
 			switch t.Name.Local {
+			case "tracked-changes":
+				// Change tracking information: the paragraphs in here are deleted
+				// text, which is not part of the document's text flow
+				if err := decoder.Skip(); err != nil {
+					return err
+				}
+
 			case "p":
 				// Paragraph
 				var para paragraphXML
